@@ -7,7 +7,7 @@ use serde_json::json;
 const P: &str = "C10";
 pub fn messages(seed: u64, thorough: bool) -> Vec<(String, Vec<u8>)> {
     let mut v: Vec<(String, Vec<u8>)> = Vec::new();
-    for len in 0..=1100usize { v.push((format!("len-digits={}", len.to_string().len()), filler_bytes(seed, 0xC10 + len as u64, len))); }
+    for len in 0..=(if thorough { 12_000usize } else { 1100 }) { v.push((format!("len-digits={}", len.to_string().len()), filler_bytes(seed, 0xC10 + len as u64, len))); }
     for b in 0..=255u8 { v.push(("single-byte".into(), vec![b])); }
     let ks: &[u32] = if thorough { &[4, 5, 6, 7] } else { &[4, 5, 6] };
     for k in ks { for d in [-1i64, 0, 1] { let len = (10i64.pow(*k) + d) as usize; v.push((format!("len-digits={}", len.to_string().len()), filler_bytes(seed, 0xAA + len as u64, len))); } }
